@@ -10,7 +10,7 @@ PROPERTY = 'C20'
 LEVEL = 'exploration'
 RULE = ('G1 programs biased towards nesting (blocks in blocks, empty blocks and bodies, object literals incl. nested '
         'and accessors, switch with empty / fall-through clauses and default anywhere, try/catch/finally, if-else '
-        'chains, labelled blocks, multi-line strings; comments when parsed with capture) x indentation strings '
+        'chains, labelled blocks, multi-line strings; comments when parsed with capture), plus an enumerated family of programs nested 1..16 (thorough: 40) levels deep in 8 nesting patterns, x indentation strings '
         '(" ", "  ", tab, " \\t", 8 spaces, empty, random). Oracle (R6): the *output* is tokenised and parsed by the '
         'reference front end; for each output line that starts a token (or a comment), expected depth = number of '
         'brace pairs of blocks, function bodies, object literals and switch blocks enclosing the line\'s first token '
@@ -169,12 +169,42 @@ shrink = text_shrinker(replay, 'text')
 INDENTS = st.one_of(st.sampled_from([' ', '  ', '\t', ' \t', '        ', '']), st.text(alphabet=' \t', max_size=6))
 
 
+def deep_program(depth, pattern):
+    """a program nested `depth` levels deep; pattern picks the kind of each level"""
+    opens, closes = [], []
+    for d in range(depth):
+        k = pattern[d % len(pattern)]
+        if k == 'b':
+            opens.append('{ a%d;' % d)
+            closes.append('}')
+        elif k == 'f':
+            opens.append('function f%d() { b%d;' % (d, d))
+            closes.append('}')
+        elif k == 'o':
+            opens.append('x%d = { p%d: 1, q: function() {' % (d, d))
+            closes.append('} };')
+        elif k == 's':
+            opens.append('switch (s%d) { case %d: c%d; default:' % (d, d, d))
+            closes.append('}')
+        elif k == 'i':
+            opens.append('if (c%d) { t%d; } else {' % (d, d))
+            closes.append('}')
+        else:
+            opens.append('try { u%d;' % d)
+            closes.append('} catch (e%d) { }' % d)
+    return ' '.join(opens) + ' leaf; ' + ' '.join(reversed(closes))
+
+
+DEEP_PATTERNS = ['b', 'f', 'o', 's', 'bfos', 'it', 'sob', 'fi']
+
+
 def plan(tier, seed):
     from harness import refgate
     refgate.run(200 if tier == 'quick' else 2000)
     n = 3200 if tier == 'quick' else 160000
     shards = [{'name': 'g1-%d' % k, 'kind': 'g1', 'n': n // 16, 'hseed': seed * 1000 + k} for k in range(16)]
     shards.append({'name': 'corpus', 'kind': 'corpus'})
+    shards.append({'name': 'deep', 'kind': 'deep', 'max_depth': 16 if tier == 'quick' else 40})
     return shards
 
 
@@ -191,7 +221,12 @@ def run_shard(shard):
         if info:
             acc.label('maxdepth_%d' % min(info['maxdepth'], 6))
         acc.label('comments_%s' % wc)
-    if shard['kind'] == 'g1':
+    if shard['kind'] == 'deep':
+        for depth in range(1, shard['max_depth'] + 1):
+            for pat in DEEP_PATTERNS:
+                for indent in ('  ', '\t', ' '):
+                    one(deep_program(depth, pat), indent, False, 'deep')
+    elif shard['kind'] == 'g1':
         cfg = gen_program.Config(nesting_bias=True)
         strat = st.tuples(gen_program.program_strategy(cfg=cfg, min_fuel=3, max_fuel=7), INDENTS, st.booleans())
         run_given(strat, lambda x: one(x[0]['text'], x[1], x[2], 'g1'), shard['n'], shard['hseed'], acc)
